@@ -5,6 +5,22 @@ HERE = os.path.dirname(os.path.dirname(os.path.abspath(__file__)))
 ALL = ["C%02d" % i for i in range(1, 21)]
 
 CHECKS = {
+ "C10": dict(category="fault_enumeration", design_ref="DESIGN.md §4 C10", engine="corpus",
+   technique="fault injection at every byte offset into components compiled by the real generator (scratch package, one driver process per DefaultBufferSize); offline oracle over the event log: prefix / nil=>whole document once / errors.Is wrap / templ.Error file+line / carry-over renders / H2 buffer-pool live-set monitor",
+   text="fault_enumeration: for each of ~260 components (hand-written set covering every node/attribute kind, Flush/Join/Once/Raw/ComponentFunc wrappers, plus seeded interpreter trees) x buffer sizes {8,64,4096}: every writer-fault offset 0..|D| x {hard error with partial write, short write, zero write}, every reached failable expression (text, attribute, style, script), nested component and child block, cancellation before start and mid-render, failing Flush; after every failure the same and another component are rendered normally on the same goroutine (no carry-over). Completeness of the offset dimension is verified from the log.",
+   note="Components and buffer sizes are samples; single-fault writer model (the writer misbehaves in exactly one Write call); bytes compared through per-prefix hashes; short-write and cancelled-context clauses are observed but not judged for the two unbuffered library roots (templ.Raw, ComponentScript) that write straight to the caller's writer. Trusted: the driver's fault writers, hook H2."),
+ "C11": dict(category="fault_enumeration", design_ref="DESIGN.md §4 C11", engine="in-proc",
+   technique="runtime monitoring of templ.Handler with httptest.ResponseRecorder, a real net/http server and a corpus driver hosting templates produced by templ generate; components write k marked chunks then fail or succeed; reference = the error path run alone; streaming mode observed as a positive control",
+   text="fault_enumeration: for every handler configuration (status 5 x content type 2 x error handler 7 x streaming 2 = 140), component shape and outcome, every failure point k=0..8 is executed (chunk sizes 1 B..200 KB sampled); buffered mode must give the whole document with configured status/content type or exactly the error path's response with no chunk marker; streaming runs prove the monitor sees partial output when it exists.",
+   note="Failure kinds: returned error, error after context cancel, nested component error; panicking components are outside the statement. Trusted: net/http, httptest."),
+ "C14": dict(category="exploration", design_ref="DESIGN.md §4 C14", engine="corpus",
+   technique="stress under the Go race detector (driver built -race, GORACE log parsed and deduplicated), G in {4,16,64} goroutines with faulting / yielding writers and shared package-level values; bytes of every successful render vs. the in-process sequential reference; H2 buffer-pool live-set monitor; dev mode with text files written by the real FSEventHandler and rewritten while rendering",
+   text="exploration: ~400k (thorough ~8M) concurrent renders over the C10 component set, 0 race reports required, every successful render byte-equal to its sequential reference, pool invariants (never handed out while live, never released twice, gets==puts at quiescence) with buffers observed moving between goroutines; development-mode renders against the shared watch-mode cache while a goroutine rewrites text files.",
+   note="The race detector only sees executed interleavings; half of the phases run with the hook off so harness mutexes add no happens-before edges. Dev-mode rewrite oracle is 'forward-only mix of equal-length versions' because templ re-reads the cache per literal."),
+ "C20": dict(category="exploration", design_ref="DESIGN.md §4 C20", engine="in-proc",
+   technique="runtime monitoring of the live-reload proxy between an in-process backend and an HTTP client: DOM-level differ (x/net/html parse, remove exactly one reload script as last child of body, compare), Content-Length / Content-Encoding checker with independent gzip/brotli decoding, independent CSP script-src nonce reader, byte identity for the pass-through class",
+   text="exploration: 72 documents (empty .. 1 MB; 4 MB in thorough; CRLF, Latin-1, BOM, frameset, generated trees) x 7 backend encodings x 7 content types, every CSP header shape (9) in the modified class, HX-Request, skip marker, chunked vs Content-Length, status codes; full cross product for three canonical documents.",
+   note="The oracle shares x/net/html with the proxy, so a parser defect common to both is invisible; only GET requests with explicit Accept-Encoding. Two genuine defects found and fixed (unknown encodings rewritten; BOM documents mangled)."),
  "C02": dict(category="exploration", design_ref="DESIGN.md §4 C02, §3 (model, wsgap)", engine="corpus",
    technique="runtime monitor: reference interpreter of a templ program model vs. bytes and evaluation trace observed from code produced by the real templ generate + go build (HTML5 token stream, whitespace-gap rule, trace set comparison, compile status)",
    text="Seeded random model programs (all node and attribute kinds of the model, random separators/layouts) plus a seed-independent adjacency matrix (21 node kinds squared x 3 separators x 4 (quick) / 8 (thorough) parent contexts) and attribute cells (7 attribute kinds x plain/conditional-then/else/nested) are generated by the real CLI, compiled, rendered with several argument vectors and compared unit-by-unit with a reference interpreter: tags, attributes (decoded), comments, doctype, text bytes, required/forbidden whitespace gaps, and the set of evaluated expression ids. Held-on-observed-executions; not a proof of the generator.",
